@@ -34,6 +34,12 @@ DEF = {
     # an enum value that is a Python keyword INSIDE an object literal: the plain value "in", not the member name in_
     "object_enum_keyword": ("Sub", "{c: in, a: 1}", {"c": "RED"}, "Sub", None),
     "list_of_objects_enum_keyword": ("[Sub!]", "[{c: in}, {c: GREEN}]", [{"c": "RED"}], "Sub", None),
+    # `null` as the default of a list / nested list / list of enums / object: stays null (it is not a list of one null)
+    "list_null": ("[String]", "null", ["a", None], None, None), "nested_list_null": ("[[Int!]!]", "null", [[1], [2, 3]], None, None),
+    "enum_list_null": ("[Color!]", "null", ["RED"], None, "enum"), "object_null": ("Sub", "null", {"a": 9}, "Sub", None),
+    # a single value as the default of a list type: input coercion makes it a list of one item
+    "list_single_value": ("[Int!]", "3", [4], None, None), "nested_list_single_value": ("[[Int]]", "3", [[4, None]], None, None),
+    "nested_list_flat_items": ("[[Int]]", "[1, 2]", [[4]], None, None),
 }
 NAMES = {"plain": "amount", "camel": "firstName", "keyword": "from", "reserved": "schema", "under": "_hidden"}
 MC_CFG = """SPECIFICATION Spec
